@@ -176,6 +176,9 @@ def pEv (toks : List String) : Option Ev :=
   match toks with
   | ["appreq", na, r, rid, body] =>
     some (.appRequest { na := pNA na, record := pRec r } (nat! rid) (nat! body))
+  -- a contact whose identity key cannot do the key agreement (Ed25519)
+  | ["appreq", na, r, rid, body, "nokey"] =>
+    some (.appRequest { na := pNA na, record := pRec r, keyOk := false } (nat! rid) (nat! body))
   | ["appresp", na, rid, rb] => some (.appResponse (pNA na) (nat! rid) (pRB (rb.splitOn "/")))
   | ["appwru", na, n, r] => some (.appWru (pNA na) (nat! n) (pRec r))
   | ["dgram", a, p] => (pPkt p).map (.dgram (pAddr a))
